@@ -306,6 +306,13 @@ def run(ctx):
             rok |= any(isinstance(c, ast.Call) and call_name(c) == "getattr" and len(c.args) >= 2 and norm(c.args[0]) == "self" and norm(c.args[1]) == g.target.id for c in ast.walk(scope))
     ctx.check(rok, "R20.4", "Record.__repr__", "repr does not list every declared field", rr, "k=v for k in self._desc.fields")
 
+    # ------------------------------------------------------------------ R20.6 what the text writers are handed for a grouped record
+    ctx.rule("R20.6", "the CSV, line and text writers render rec._asdict(): for a grouped record that dict takes every value from the member that owns the field "
+                      "(first member wins, the group's own attributes do not shadow fields)")
+    from .c15 import check_grouped_values
+    check_grouped_values(ctx, "R20.6")
+
+
 
 def _record_derived(recv, fn, prog=None, module=None) -> bool:
     """Could the text being encoded contain record values?  Text composed only of literals and the writer's own attributes
